@@ -260,7 +260,10 @@ def source_tie(pid, mod):
             if lit_now.get(fn, []) != lit_pin.get(fn, []) and fn in lit_now:
                 failures.append('float literals of %s changed in the source: pinned %s, now %s (the tie theorems instantiate '
                                 'literal parameters by the pinned values)' % (fn, lit_pin.get(fn, []), lit_now.get(fn, [])))
-    ok, log = lake_build(['Props.%sSrc' % pid])
+    targets = ['Props.%sSrc' % pid]
+    if os.path.exists(os.path.join(LEAN, 'Props', pid + 'SrcProps.lean')):
+        targets.append('Props.%sSrcProps' % pid)      # the property theorems restated about the regenerated definitions
+    ok, log = lake_build(targets)
     if not ok:
         errs = [l.strip() for l in log.split('\n') if 'error' in l][:6]
         failures.append('source tie Props/%sSrc.lean no longer checks against the regenerated TaurexModel/Gen/Src%s.lean: %s'
@@ -303,10 +306,18 @@ def audit(pid, thorough=False, tie=None):
     if lock.get(pid) != sha(ppath):
         failures.append('props.lock: statement file Props/%s.lean differs from the pinned hash' % pid)
     tie_names = []
+    tie_mods = []
     if tie is not None:
         tie_names, tpath = prop_theorems(pid + 'Src')
+        tie_mods = ['Props.%sSrc' % pid]
         if lock.get(pid + 'Src') != sha(tpath):
             failures.append('props.lock: statement file Props/%sSrc.lean differs from the pinned hash' % pid)
+        if os.path.exists(os.path.join(LEAN, 'Props', pid + 'SrcProps.lean')):
+            more, ppath2 = prop_theorems(pid + 'SrcProps')
+            tie_names = tie_names + more
+            tie_mods.append('Props.%sSrcProps' % pid)
+            if lock.get(pid + 'SrcProps') != sha(ppath2):
+                failures.append('props.lock: statement file Props/%sSrcProps.lean differs from the pinned hash' % pid)
         failures.extend(tie['failures'])
     for f, w in source_grep():
         failures.append('forbidden construct %r in %s' % (w, f))
@@ -316,7 +327,8 @@ def audit(pid, thorough=False, tie=None):
     with open(afile, 'w') as fh:
         fh.write('import Props.%s\n' % pid)
         if tie is not None and tie['built']:
-            fh.write('import Props.%sSrc\n' % pid)
+            for tm in tie_mods:
+                fh.write('import %s\n' % tm)
         for n in names:
             fh.write('#print axioms %s\n' % n)
         if tie is not None and tie['built']:
@@ -351,7 +363,7 @@ def audit(pid, thorough=False, tie=None):
     res = dict(obligations=nobl, discharged=discharged, failures=failures, axioms=axioms,
                checker_cmd=cmd, theorems=names)
     if thorough:
-        mods = ['Props.' + pid] + (['Props.%sSrc' % pid] if (tie is not None and tie['built']) else [])
+        mods = ['Props.' + pid] + (tie_mods if (tie is not None and tie['built']) else [])
         t0 = time.time()
         rc = subprocess.run(['lake', 'env', 'leanchecker'] + mods, cwd=LEAN, capture_output=True, text=True,
                             timeout=3000)
